@@ -35,6 +35,7 @@ pub fn rx(tier: Tier, segs: usize, lens: Vec<usize>, depth: usize) -> Driver {
         Act::Tick,
         Act::Wait(5),
         Act::Spurious,
+        Act::RepollReaderOtherTask,
     ];
     Driver { name: format!("rx-{segs}seg-lens{lens:?}"), cfg, prefix: vec![], alphabet, depth, state_cap: tier.pick(400_000, 6_000_000) }
 }
@@ -272,6 +273,35 @@ pub fn nagle(tier: Tier, on: bool, depth: usize) -> Driver {
     Driver { name: format!("nagle-{}", if on { "on" } else { "off" }), cfg, prefix: vec![], alphabet, depth, state_cap: tier.pick(400_000, 6_000_000) }
 }
 
+/// Nagle while loss recovery is in progress: a grown window, five segments in flight, then SACK
+/// evidence; new small and odd-sized writes arrive while the recovery window (not a multiple of the
+/// segment size) is what meters transmission.
+pub fn nagle_recovery(tier: Tier, depth: usize) -> Driver {
+    let mut d = nagle(tier, true, depth);
+    let def = WndSpec::Default;
+    d.name = "nagle-recovery".into();
+    d.prefix = vec![
+        Act::Write(2 * MSS),
+        state(AckSpec::All, def, SackSpec::None),
+        Act::Write(4 * MSS),
+        state(AckSpec::All, def, SackSpec::None),
+        Act::Write(5 * MSS),
+    ];
+    d.alphabet = vec![
+        Act::Write(1),
+        Act::Write(MSS + 3),
+        Act::Write(3 * MSS + 1),
+        state(AckSpec::Cur, def, SackSpec::Raw(vec![0b0001_1101, 0, 0, 0, 0, 0, 0, 0])),
+        state(AckSpec::Cur, def, SackSpec::FirstN(1)),
+        state(AckSpec::Cur, def, SackSpec::AllSent),
+        state(AckSpec::Plus(1), def, SackSpec::None),
+        state(AckSpec::Plus(1), def, SackSpec::AllSent),
+        state(AckSpec::All, def, SackSpec::None),
+        Act::Tick,
+    ];
+    d
+}
+
 /// Send buffer bound and back-pressure: tiny ring, growth, ACK schedules.
 pub fn tx_flow(tier: Tier, init: usize, max: usize, depth: usize) -> Driver {
     let mss = 4;
@@ -291,6 +321,7 @@ pub fn tx_flow(tier: Tier, init: usize, max: usize, depth: usize) -> Driver {
         state(AckSpec::Cur, w(1 << 20), SackSpec::None),
         Act::Flush,
         Act::Tick,
+        Act::RepollWriterOtherTask,
     ];
     Driver { name: format!("tx-flow-{init}-{max}"), cfg, prefix: vec![], alphabet, depth, state_cap: tier.pick(400_000, 6_000_000) }
 }
@@ -453,6 +484,7 @@ pub fn all_drivers(tier: Tier) -> Vec<Driver> {
     v.push(rtx(tier, 5, true, 7));
     v.push(rtx_after_recovery_rto(tier, 7));
     v.push(rtx_piggyback(tier, 6));
+    v.push(nagle_recovery(tier, 6));
     v.push(tx_slowstart(tier, 6));
     v.push(tx_window_mtu(tier, 6));
     v.extend(fsm_all(tier, 5));
